@@ -22,7 +22,11 @@ def cfg : Cfg :=
     rollupPss := Gen.C13.rollupPrefixes.getD 1 []
     rollupSwap := Gen.C13.rollupPrefixes.getD 2 []
     pmemFields := Gen.C13.pmemFields
-    pfullmemFields := Gen.C13.pfullmemFields }
+    pfullmemFields := Gen.C13.pfullmemFields
+    privatePat := Re.compileOne Gen.C13.privateReB
+    pssPat := Re.compileOne Gen.C13.pssReB
+    swapPat := Re.compileOne Gen.C13.swapReB
+    rollupWrapped := ((Gen.C13.methodDecorators.lookup "_parse_smaps_rollup").getD []).contains "wrap_exceptions" }
 
 /-- where `memory_percent`'s total comes from, as extracted from the current source -/
 def pcfg : PCfg :=
